@@ -268,3 +268,4 @@ def r10_serde_dispatch(ctx):
 
 RULES.append(r10_serde_dispatch)
 RULES.append(lazy("C04", "r8_undecodable_output", "a value that could not be decoded is not the value sequential evaluation gives"))
+RULES.append(lazy("C16", "r1_projections", "the preschedule records every output of every task: the publish set of a task is taken from it, and completion is inferred from the publication of the task's last output"))
